@@ -338,6 +338,43 @@ def run_case(ctx, i, rng):
             if e:
                 ctx.violation("mixed-roots:instance+netlist", "%s | %s" % (e, st))
                 return
+    # ... an instance (or one of its pins) and a definition it is NOT an instance of, the definition standing last: the union -
+    #     and asking again for the definition alone (its instances, one of its ports) afterwards gives what it gave before
+    for d in pick([d_ for d_ in defs if d_.references], 3):
+        others = [x for d_ in defs for x in d_.children if x.reference is not d]
+        if not others:
+            continue
+        x = rng.choice(others)
+        wd = collections.Counter()
+        for s in occ["instances"]:
+            if s[-1].reference is d:
+                wd[ids(s)] = 1
+        wu = collections.Counter(wd)
+        for k_ in by_last.get(("instances", id(x)), {}):
+            wu[k_] = 1
+        root_x = x
+        if rng.random() < 0.4 and len(x.pins):
+            root_x = next(iter(x.pins))
+        ctx.count("mixed_root_queries")
+        ctx.count("instance_then_definition_root_queries")
+        refs_before = set(map(id, d.references))
+        got = list(sdn.get_hinstances([root_x, d]))
+        if root_x is x:
+            e = cmp(ctx, "get_hinstances([instance, definition])", got, wu)
+            if e:
+                ctx.violation("mixed-roots:instance+definition", "%s | %s" % (e, st))
+                return
+        e = cmp(ctx, "get_hinstances(definition) after a query that listed the definition among other roots",
+                list(_q(rng, ctx, sdn.get_hinstances, d)), wd)
+        if not e and len(d.ports):
+            p = rng.choice(list(d.ports))
+            e = cmp(ctx, "get_hports(port) after a query that listed its definition among other roots",
+                    list(_q(rng, ctx, sdn.get_hports, p)), by_last.get(("ports", id(p)), collections.Counter()))
+        if not e and set(map(id, d.references)) != refs_before:
+            e = "the references of definition %s changed by a query" % d.name
+        if e:
+            ctx.violation("earlier-query-changes-later-answer:definition-root", "%s | %s" % (e, st))
+            return
     # HRef roots: the sub-tree below an occurrence
     hinsts = [h for h in held if isinstance(h.item, sdn.Instance)]
     for h in pick(hinsts, 5):
